@@ -63,7 +63,9 @@ class DSock:
             if not s.block(('data', self), 1.0):
                 raise socket.timeout()
             if not self.inbox:
-                return b'' if self.peer_closed else self.recv(n)
+                if self.peer_closed:
+                    return b''
+                raise socket.timeout()
         return self.inbox.pop(0)
 
     def sendall(self, data):
@@ -87,24 +89,31 @@ class DSock:
             s.wake(lambda w: w == ('data', self))
 
 
+DELAYS = [0, 0, 0, 0.5, 2.0]
+
+
 @st.composite
 def scenario(draw):
+    # most of the traffic is about one focus module / parameter, so that scopes of several connections overlap
+    fmod = draw(st.sampled_from(['m0', 'm1']))
+    fpar = draw(st.sampled_from(['a', 'b']))
+    scopes = [None, fmod, f'{fmod}:_{fpar}'] * 3 + SCOPES
     conns = []
     for _ in range(draw(st.integers(1, 3))):
         script = []
         for _ in range(draw(st.integers(1, 6))):
             kind = draw(st.sampled_from(['activate', 'activate', 'deactivate', 'deactivate', 'idn', 'ping']))
             if kind in ('activate', 'deactivate'):
-                script.append([kind, draw(st.sampled_from(SCOPES))])
+                script.append([kind, draw(st.sampled_from(scopes)), draw(st.sampled_from(DELAYS))])
             else:
-                script.append([kind, None])
+                script.append([kind, None, draw(st.sampled_from(DELAYS))])
         conns.append(script)
     drivers = []
     for _ in range(draw(st.integers(1, 2))):
         ops = []
-        for _ in range(draw(st.integers(1, 6))):
-            ops.append([draw(st.sampled_from(['assign', 'assign', 'read', 'error'])), draw(st.sampled_from(['m0', 'm1'])),
-                        draw(st.sampled_from(['a', 'b', 'hid']))])
+        for _ in range(draw(st.integers(1, 8))):
+            mod, par = (fmod, fpar) if draw(st.integers(0, 3)) else (draw(st.sampled_from(['m0', 'm1'])), draw(st.sampled_from(['a', 'b', 'hid'])))
+            ops.append([draw(st.sampled_from(['assign', 'assign', 'read', 'error'])), mod, par, draw(st.sampled_from(DELAYS))])
         drivers.append(ops)
     return {'kind': 'scenario', 'conns': conns, 'drivers': drivers, 'schedule': draw(st.lists(st.integers(0, 3), min_size=20, max_size=200))}
 
@@ -156,19 +165,29 @@ def run_scenario(case, preempt=None):
         for ci, script in enumerate(case['conns']):
             sock = DSock(f'c{ci}')
             socks.append(sock)
-            for kind, scope in script:
-                line = {'activate': 'activate', 'deactivate': 'deactivate', 'idn': '*IDN?', 'ping': 'ping x'}[kind]
-                if scope and kind in ('activate', 'deactivate'):
-                    line += ' ' + scope
-                sock.push(line.encode() + b'\n')
-            sock.peer_closed = True     # after the script the peer disconnects
+            def feed(sock=sock, script=script):
+                # the peer sends its requests over (virtual) time and disconnects at the end
+                for item in script:
+                    kind, scope = item[0], item[1]
+                    if len(item) > 2 and item[2]:
+                        dsched.v_sleep(item[2])
+                    line = {'activate': 'activate', 'deactivate': 'deactivate', 'idn': '*IDN?', 'ping': 'ping x'}[kind]
+                    if scope and kind in ('activate', 'deactivate'):
+                        line += ' ' + scope
+                    sock.push(line.encode() + b'\n')
+                dsched.v_sleep(3.0)
+                sock.close_peer()
 
             def serve(sock=sock):
                 TCPRequestHandler(sock, ('127.0.0.1', 1), FakeTcpServer(kit))
+            threads.append(s.spawn(feed, _name=f'T:peer{ci}'))
             threads.append(s.spawn(serve, _name=f'T:conn{ci}'))
         for di, ops in enumerate(case['drivers']):
             def driver(ops=ops):
-                for op, mod, par in ops:
+                for item in ops:
+                    op, mod, par = item[:3]
+                    if len(item) > 3 and item[3]:
+                        dsched.v_sleep(item[3])
                     mobj = kit.modules[mod]
                     v = nextval()
                     if op == 'assign' or par == 'hid':
@@ -290,7 +309,7 @@ def check(ctx, case, preempt=None):
             if ri >= len(script):
                 ctx.finding('superfluous-reply', sub, f'conn {ci}: {action} {spec}')
                 return
-            kind, scope = script[ri]
+            kind, scope = script[ri][0], script[ri][1]
             ri += 1
             for sstep, skey, text, why in suspects:
                 if not (kind == 'activate' and action == 'active' and in_scope({scope}, skey[0], wire(skey[1]))):
@@ -376,6 +395,11 @@ def same(tval, val):
 
 
 CATALOGUE = [
+    # subscriptions of different scope held by two connections on the same parameter
+    {'conns': [[['activate', 'm0:_a', 0], ['ping', None, 6.0]], [['activate', None, 0.5], ['deactivate', None, 2.0], ['ping', None, 2.0]]],
+     'drivers': [[['assign', 'm0', 'a', 1.0], ['assign', 'm0', 'a', 2.5], ['assign', 'm0', 'a', 1.0]]]},
+    {'conns': [[['activate', 'm0', 0], ['activate', 'm0:_a', 0], ['deactivate', 'm0:_a', 2.0], ['ping', None, 2.0]], [['activate', 'm0:_a', 0.5], ['deactivate', 'm0:_a', 1.0], ['ping', None, 3.0]]],
+     'drivers': [[['assign', 'm0', 'a', 1.0], ['assign', 'm0', 'a', 1.5], ['assign', 'm0', 'a', 1.5]]]},
     {'conns': [[['activate', None], ['deactivate', None]]], 'drivers': [[['assign', 'm0', 'a'], ['assign', 'm0', 'a'], ['assign', 'm0', 'a']]]},
     {'conns': [[['activate', 'm0'], ['deactivate', 'm0']]], 'drivers': [[['assign', 'm0', 'a'], ['read', 'm0', 'b'], ['assign', 'm1', 'a']]]},
     {'conns': [[['activate', 'm0:_a'], ['idn', None]]], 'drivers': [[['assign', 'm0', 'a'], ['assign', 'm0', 'a']]]},
